@@ -1176,6 +1176,16 @@ SPECS = [
     dict(name="combine_area_extents_vertical", file="pyresample/geometry.py", func="combine_area_extents_vertical", raises=True,
          params=[("area1.area_extent", tup(RAT, RAT, RAT, RAT)), ("area2.area_extent", tup(RAT, RAT, RAT, RAT))],
          returns=tup(RAT, RAT, RAT, RAT), select=_whole, owners=["C10"]),
+    # ---- C16 -----------------------------------------------------------------------------------
+    dict(name="bbox_counts", file="pyresample/geometry.py", func="BaseDefinition._get_bbox_slices", mode="fragment",
+         params=[("self.shape", tup(INT, INT)), ("vertices_per_side", opt(INT))],
+         outputs=["row_num", "col_num"], output_types={"row_num": INT, "col_num": INT},
+         select=_from_stmt("height, width = self.shape", upto="s1_slice = (0, np.linspace(0, width - 1, col_num, dtype=int))"),
+         post_guard=["s1_slice = (0, np.linspace(0, width - 1, col_num, dtype=int))",
+                     "s2_slice = (np.linspace(0, height - 1, row_num, dtype=int), -1)",
+                     "s3_slice = (-1, np.linspace(width - 1, 0, col_num, dtype=int))",
+                     "s4_slice = (np.linspace(height - 1, 0, row_num, dtype=int), 0)",
+                     "return (s1_slice, s2_slice, s3_slice, s4_slice)"], owners=["C16"]),
     # ---- C06 -----------------------------------------------------------------------------------
     dict(name="calc_abc", file="pyresample/bilinear/_base.py", func="_calc_abc",
          params=[("corner_points", tup(tup(RAT, RAT), tup(RAT, RAT), tup(RAT, RAT), tup(RAT, RAT))), ("out_y", RAT), ("out_x", RAT)],
